@@ -4,6 +4,7 @@
  *   h_hash <msgfile> <cases> <out>
  * case line:  <type> <off> <len> <mode> <param>
  *   mode W whole | B one byte per update | S split once at <param> | R random pieces (seed <param>) | K pieces of <param> bytes
+ *        G generated long message: the message file repeated cyclically up to <len> bytes (may exceed 4 GiB), fed in pieces of <param> bytes
  * out line:   <hex digest> <digest_size> <updates>
  * Each message is copied into an exact-size heap buffer first. */
 #define _GNU_SOURCE
@@ -29,6 +30,32 @@ int main(int argc, char **argv) {
     zckCtx *z = zck_create();
     int type; long off, len; char mode; unsigned long param;
     while(fscanf(cf, "%d %ld %ld %c %lu", &type, &off, &len, &mode, &param) == 5) {
+        if(mode == 'G') {
+            zckHashType t = {0};
+            zckHash h = {0};
+            if(!hash_setup(z, &t, type) || !hash_init(z, &h, &t)) { fprintf(of, "ERR-setup 0 0\n"); zck_clear_error(z); continue; }
+            long pos = 0, ups = 0;
+            int ok = 1;
+            if(param == 0 || (long)param > ml) param = ml;
+            while(pos < len && ok) {
+                long at = pos % ml;
+                long n = (long)param;
+                if(n > ml - at) n = ml - at;
+                if(n > len - pos) n = len - pos;
+                ok = hash_update(z, &h, (const char *)msg + at, n);
+                pos += n;
+                ups++;
+            }
+            char *d = ok ? hash_finalize(z, &h) : NULL;
+            if(!d) fprintf(of, "ERR-final 0 %ld\n", ups);
+            else {
+                for(int i = 0; i < t.digest_size; i++) fprintf(of, "%02x", (unsigned char)d[i]);
+                fprintf(of, " %d %ld\n", t.digest_size, ups);
+                free(d);
+            }
+            hash_close(&h);
+            continue;
+        }
         if(off < 0 || len < 0 || off + len > ml) return 3;
         char *m = malloc(len ? len : 1);
         memcpy(m, msg + off, len);
